@@ -249,7 +249,7 @@ def run_e2e(res, tier, seed, tag, n_crates, cfg, flavours=("td_string", "td_disp
 
 def run(tier, seed, replay=None):
     res = Result("C01", tier, seed, RULE)
-    n = 400 if tier == "quick" else 6000
+    n = 400 if tier == "quick" else 20000
     rng = rng_for(seed, "C01")
     cfg = cfg_for(tier, rng)
     projs = [projects.gen_valid_project(rng, cfg) for _ in range(n)]
@@ -260,7 +260,7 @@ def run(tier, seed, replay=None):
         for p, o in zip(projs, outs):
             check_project(res, p, o, ptable, rng, fmt=fmt)
     res.extra["projects"] = n
-    run_e2e(res, tier, seed, "c01", 3 if tier == "quick" else 24, e2e_cfg(), fmts=("json", "json", "yaml", "json5"))
+    run_e2e(res, tier, seed, "c01", 3 if tier == "quick" else 48, e2e_cfg(), fmts=("json", "json", "yaml", "json5"))
     res.assumptions += ["reference model vlib/model.py", "ICU4X compiled data as the CLDR plural oracle",
                         "literal text never contains < > {{ }} $t( (DESIGN section 1)"]
     return res.finish(min_events=1000)
